@@ -15,6 +15,7 @@ import (
 type sx struct {
 	atom string
 	kids []*sx
+	sort string // optional: known sort of the term (instantiation candidates)
 }
 
 func (s *sx) isAtom() bool { return s.kids == nil && s.atom != "" }
@@ -223,7 +224,14 @@ func normQuant(h *sx) *sx {
 	}
 	switch h.head() {
 	case "=":
-		if len(h.kids) == 3 && (containsQuant(h.kids[1]) || containsQuant(h.kids[2])) {
+		isBoolHead := func(s *sx) bool {
+			switch s.head() {
+			case "exists", "forall", "and", "or", "not", "=>":
+				return true
+			}
+			return false
+		}
+		if len(h.kids) == 3 && (isBoolHead(h.kids[1]) || isBoolHead(h.kids[2])) && (containsQuant(h.kids[1]) || containsQuant(h.kids[2])) {
 			a, b := normQuant(h.kids[1]), normQuant(h.kids[2])
 			imp := &sx{atom: "=>"}
 			return &sx{kids: []*sx{{atom: "and"}, normQuant(&sx{kids: []*sx{imp, a, b}}), normQuant(&sx{kids: []*sx{imp, b, a}})}}
@@ -491,7 +499,7 @@ func instances(h *sx, idxSort string, cands []*sx, refCands []*sx, depth int, bu
 			return nil
 		}
 		use := cands
-		if refVarRe.MatchString(name) && sortS == "Int" {
+		if refVarRe.MatchString(name) {
 			// quantifier over references: instantiate at the reference constants of the goal.
 			// Nested reference quantifiers (order axioms over triples) are left to the solver's
 			// own instantiation: ground-instantiating them is cubic noise.
@@ -512,6 +520,9 @@ func instances(h *sx, idxSort string, cands []*sx, refCands []*sx, depth int, bu
 		for _, c := range use {
 			if *budget <= 0 {
 				break
+			}
+			if c.sort != "" && c.sort != sortS {
+				continue
 			}
 			b := body.subst(name, c)
 			inner := instances(b, idxSort, cands, refCands, depth+1, budget)
@@ -548,17 +559,54 @@ func containsQuant(s *sx) bool {
 // extra declarations.
 // termIsInt: the term is known to have sort Int (a declared Int constant, a skolem of an Int binder,
 // or an element read from a memory whose element sort is Int).
-func termIsInt(t *sx, declSorts map[string]string, extraDecls []string) bool {
+// isIdxTerm: the term certainly has the index sort (so that it may instantiate an index binder).
+func isIdxTerm(t *sx, idxSort string, declSorts map[string]string, extraDecls []string) bool {
 	if t.isAtom() {
-		if s, ok := declSorts[t.atom]; ok {
-			return s == "Int"
+		if t.atom != "" && (t.atom[0] >= '0' && t.atom[0] <= '9') {
+			return idxSort == "Int"
 		}
-		for _, d := range extraDecls {
-			if strings.HasPrefix(d, "(declare-const "+t.atom+" ") {
-				return strings.HasSuffix(d, " Int)")
+		if strings.HasPrefix(t.atom, "#x") {
+			return idxSort != "Int" && len(t.atom) == 18
+		}
+		return termSort(t, declSorts, extraDecls) == idxSort
+	}
+	switch t.head() {
+	case "+", "-", "*", "bvadd", "bvsub", "bvmul", "ite":
+		start := 1
+		if t.head() == "ite" {
+			start = 2
+		}
+		for _, k := range t.kids[start:] {
+			if !isIdxTerm(k, idxSort, declSorts, extraDecls) {
+				return false
 			}
 		}
-		return false
+		return len(t.kids) > start
+	case "sl_len", "sl_off", "sl_cap":
+		return true
+	case "select":
+		return termSort(t, declSorts, extraDecls) == idxSort
+	}
+	return false
+}
+
+func termIsInt(t *sx, declSorts map[string]string, extraDecls []string) bool {
+	return termSort(t, declSorts, extraDecls) == "Int"
+}
+
+// termSort: the sort of a constant or of an element read, "" when unknown.
+func termSort(t *sx, declSorts map[string]string, extraDecls []string) string {
+	if t.isAtom() {
+		if s, ok := declSorts[t.atom]; ok {
+			return s
+		}
+		pre := "(declare-const " + t.atom + " "
+		for _, d := range extraDecls {
+			if strings.HasPrefix(d, pre) {
+				return strings.TrimSuffix(d[len(pre):], ")")
+			}
+		}
+		return ""
 	}
 	if t.head() == "select" && len(t.kids) == 3 {
 		// (select (select M b) i) / (select arr i): find the array symbol
@@ -574,19 +622,19 @@ func termIsInt(t *sx, declSorts map[string]string, extraDecls []string) bool {
 		if a.isAtom() {
 			s, ok := declSorts[a.atom]
 			if !ok {
-				return false
+				return ""
 			}
 			p := mustParse(s)
 			for i := 0; i < depth; i++ {
 				if p.head() != "Array" || len(p.kids) != 3 {
-					return false
+					return ""
 				}
 				p = p.kids[2]
 			}
-			return p.String() == "Int"
+			return p.String()
 		}
 	}
-	return false
+	return ""
 }
 
 func preprocess(pc []string, goal string, mode Mode, declSorts map[string]string) (hyps []string, newGoal string, extraDecls []string) {
@@ -680,7 +728,7 @@ func preprocess(pc []string, goal string, mode Mode, declSorts map[string]string
 			return
 		}
 		seen[s] = true
-		if p, ok := parseSx(s); ok {
+		if p, ok := parseSx(s); ok && isIdxTerm(p, idxSort, declSorts, extraDecls) {
 			cands = append(cands, p)
 		}
 	}
@@ -724,15 +772,19 @@ func preprocess(pc []string, goal string, mode Mode, declSorts map[string]string
 	}
 	// reference constants of the goal: instantiation terms for quantifiers over references
 	var refCands []*sx
-	if mode == ModeInt {
+	{
 		rs := map[string]bool{}
 		collectRefAtoms(g, rs)
 		for _, a := range peeledAnte {
 			collectRefAtoms(a, rs)
 		}
 		for _, k := range sortedKeys(rs) {
-			if len(refCands) < 8 && termIsInt(mustParse(k), declSorts, extraDecls) {
-				refCands = append(refCands, mustParse(k))
+			if len(refCands) < 10 {
+				if so := termSort(mustParse(k), declSorts, extraDecls); so != "" {
+					c := mustParse(k)
+					c.sort = so
+					refCands = append(refCands, c)
+				}
 			}
 		}
 	}
